@@ -72,6 +72,17 @@ impl<D, E> Reader<D, E> {
     }
 }
 
+impl<D, E> Drop for Reader<D, E> {
+    /// Tells the `Writer` that no one will consume further chunks and releases any queued ones.
+    fn drop(&mut self) {
+        let _old; // drop might be slow; release lock first.
+        if let Ok(mut l) = self.shared.lock() {
+            _old = std::mem::replace(&mut l.state, SharedState::ReaderFused);
+            l.waker = None;
+        }
+    }
+}
+
 impl<D, E> futures_core::Stream for Reader<D, E>
 where
     D: From<Vec<u8>>,
